@@ -284,6 +284,15 @@ func c10UnescapedComma(v string) int {
 	return -1
 }
 
+// c10ValueOf returns the part of v that is the value of the modifier: an
+// unescaped comma ends it (what follows are further modifiers).
+func c10ValueOf(v string) string {
+	if cut := c10UnescapedComma(v); cut >= 0 {
+		return v[:cut]
+	}
+	return v
+}
+
 func c10Check(c *Ctx, v string) (accepted bool) {
 	text := "||h.test^$dnsrewrite=" + v
 	var r1, r2 *rules.NetworkRule
@@ -341,7 +350,7 @@ func c10Check(c *Ctx, v string) (accepted bool) {
 		if r1 != nil {
 			d = r1.DNSRewrite
 		}
-		if want, got := c10RefClass(v), c10GotClass(d, e1); !(r1 != nil && e1 == nil && d == nil) && !c10ClassAgrees(want, got) {
+		if want, got := c10RefClass(c10ValueOf(v)), c10GotClass(d, e1); !(r1 != nil && e1 == nil && d == nil) && !c10ClassAgrees(want, got) {
 			c.Run.Violate(ev.Violation{Pred: "class-determined-by-text", Sig: map[string]any{"value": v},
 				What: fmt.Sprintf("%q parses as %s (%+v, err %v), the documented grammar says %s", text, got, d, e1, want), Replay: map[string]any{"value": v}})
 		}
@@ -371,7 +380,7 @@ func c10Check(c *Ctx, v string) (accepted bool) {
 			}
 		}
 	}
-	if why := c10Echo(v, r1.DNSRewrite); why != "" {
+	if why := c10Echo(c10ValueOf(v), r1.DNSRewrite); why != "" {
 		c.Run.Violate(ev.Violation{Pred: "value-equals-written-value", Sig: map[string]any{"value": v}, What: fmt.Sprintf("%q accepted with %s", text, why), Replay: map[string]any{"value": v}})
 	}
 	// the value stays what was parsed while the rule is used: evaluated together with an exception for the
